@@ -375,6 +375,103 @@ func slotProbe(s smbgen.Struct, rels []smbgen.Relation) {
 	}
 }
 
+// stringFormats: a string field whose buffer format the command leaves to the caller (Marshal
+// preserves at least two different formats) must carry every one of the five MS-CIFS formats
+// through the wire, format included — or refuse it with an error; never silently another format.
+func stringFormats(s smbgen.Struct, rels []smbgen.Relation) {
+	for fi := 0; fi < s.Type.NumField(); fi++ {
+		if s.Type.Field(fi).Type.Name() != "SMB_STRING" {
+			continue
+		}
+		name := s.Type.Field(fi).Name
+		type res struct {
+			kept, err bool
+			back      uint64
+			backBuf   []byte
+		}
+		out := map[uint64]res{}
+		for f := uint64(1); f <= 5; f++ {
+			c := s.New()
+			smbgen.Fill(c, rels, r.Rand("strfmt|"+s.Name), smbgen.ModeDistinct, 6)
+			fv := reflect.ValueOf(c).Elem().Field(fi)
+			fv.FieldByName("BufferFormat").SetUint(f)
+			buf := []byte("fmt-" + name)
+			fv.FieldByName("Buffer").SetBytes(buf)
+			fv.FieldByName("Length").SetUint(uint64(len(buf)))
+			smbgen.AlignPads(c, rels)
+			w, err, pan, _, _ := marshal(c)
+			r.Eval(1)
+			if pan || err != nil {
+				out[f] = res{err: true}
+				continue
+			}
+			kept := fv.FieldByName("BufferFormat").Uint() == f
+			d := s.New()
+			var uerr error
+			p, _, _ := mon.Guard(func() { _, uerr = d.Unmarshal(append([]byte{}, w...)) })
+			if p || uerr != nil {
+				out[f] = res{kept: kept, err: true}
+				continue
+			}
+			dv := reflect.ValueOf(d).Elem().Field(fi)
+			out[f] = res{kept: kept, back: dv.FieldByName("BufferFormat").Uint(), backBuf: dv.FieldByName("Buffer").Bytes()}
+		}
+		nKept := 0
+		for _, x := range out {
+			if x.kept && !x.err {
+				nKept++
+			}
+		}
+		if nKept < 2 {
+			continue // the command forces its own format: judged by the ordinary round trip
+		}
+		for f := uint64(1); f <= 5; f++ {
+			x := out[f]
+			if x.err {
+				continue
+			}
+			if !x.kept || x.back != f || string(x.backBuf) != "fmt-"+name {
+				r.Violation(s.Name+":string-format:"+name, fmt.Sprintf("%s leaves the buffer format of %s to the caller, but format %#02x comes back as %#02x (kept by Marshal: %v, buffer %q)", s.Name, name, f, x.back, x.kept, x.backBuf), map[string]any{"struct": s.Name, "field": name, "format": f})
+			}
+			r.Nontrivial(fmt.Sprintf("strfmt|%s|%s|%d", s.Name, name, f))
+		}
+	}
+}
+
+// andxIsolation: what one AndX command's owner does to the AndX block it got from the library
+// must not reach another command (no shared default block).
+func andxIsolation(structs []smbgen.Struct) {
+	var andxStructs []smbgen.Struct
+	for _, s := range structs {
+		if s.New().IsAndX() {
+			andxStructs = append(andxStructs, s)
+		}
+	}
+	for i, a := range andxStructs {
+		ca := a.New()
+		smbgen.Fill(ca, smbgen.Relations(a.Name), r.Rand("andxiso|"+a.Name), smbgen.ModeDistinct, 4)
+		if _, err, pan, _, _ := marshal(ca); pan || err != nil || ca.GetAndX() == nil {
+			continue
+		}
+		// the owner now edits the block the library created for it, and also decodes into the object
+		ca.GetAndX().AndXOffset = 0x1234
+		ca.GetAndX().AndXReserved = 0x77
+		b := andxStructs[(i+1)%len(andxStructs)]
+		cb := b.New()
+		smbgen.Fill(cb, smbgen.Relations(b.Name), r.Rand("andxiso2|"+b.Name), smbgen.ModeDistinct, 4)
+		w, err, pan, _, _ := marshal(cb)
+		r.Eval(1)
+		if pan || err != nil {
+			continue
+		}
+		params, _, ok := smbgen.Blocks(w)
+		if ok && len(params) >= 4 && !bytes.Equal(params[:4], []byte{0xFF, 0, 0, 0}) {
+			r.Violation("andx:shared-default-block", fmt.Sprintf("after the owner of a %s edited the AndX block the library gave it, a fresh %s encodes its AndX words as % x instead of ff 00 00 00", a.Name, b.Name, params[:4]), map[string]any{"first": a.Name, "second": b.Name, "wire": mon.FullHex(w)})
+		}
+		r.Nontrivial("andxiso|" + a.Name + "|" + b.Name)
+	}
+}
+
 // perturb complements every integer leaf below v (lengths of slices and strings unchanged).
 func perturb(v reflect.Value) {
 	switch v.Kind() {
@@ -426,6 +523,7 @@ func main() {
 			unconstrained[s.Name] = u
 		}
 		slotProbe(s, rels)
+		stringFormats(s, rels)
 		for m := smbgen.ModeDistinct; m <= smbgen.ModeOne; m++ {
 			roundTrip(s, rels, m, 0, 6)
 		}
@@ -439,6 +537,9 @@ func main() {
 			}
 			roundTrip(s, rels, smbgen.ModeRandom, i, maxLen)
 		}
+	}
+	if only == "" {
+		andxIsolation(structs)
 	}
 	sort.Strings(names)
 	r.Extra("structure_names", names)
